@@ -63,6 +63,24 @@ NEEDS = {
     'C18-cB': "use_exact_signal=True, default use_same_signal=False, n_sim >= 2: signal generated once before the loop",
     'C19-cA': "threshold < 1 and a centre whose in-mask fraction equals the threshold exactly (border-truncated spheres): '>' instead of '>='",
     'C19-cB': "> 1000 centres and event labels not first occurring in sorted order: chunked branch encodes labels by first appearance",
+    'C04-dA': "eval_dual_bootstrap without cv (uncorrected branch) and at least one unusable resample: covariance divided by N-1 instead of n_ok-1",
+    'C04-dB': "bootstrap_crossval boot_type='both' with a grouping pattern descriptor and fewer condition groups than RDM groups: dof from n_cond",
+    'C05-dA': "sets_random with n_rdm > 0 and n_pattern == 0 (RDM-only random CV): copy/paste guard makes train == test == all RDMs",
+    'C05-dB': "sets_k_fold / bootstrap_crossval with k_pattern == 1 and k_rdm > 1: two cooperating edits alias the ceiling entries to the test entries",
+    'C09-dA': "ndarray pattern descriptor; bootstrap_sample_rdm, then sort_by/reorder on the sample, then another draw from the source: shallow dict copy + in-place array permutation",
+    'C09-dB': "grouping pattern descriptor whose values are not stored ascending: searchsorted ranks used as positions in subsample_pattern",
+    'C10-dA': "rdms[i] (or iteration) then reorder/sort_by on the extracted RDM: integer index returns a view + reorder writes in place (two edits)",
+    'C10-dB': "a condition occurring three or more times in subsample_pattern: only neighbouring copies NaN-marked",
+    'C11-dA': "TemporalDataset: split_obs(by), sort_by(other), split_obs(by) again: memoised unique/inverse not invalidated by the TemporalDataset.sort_by override",
+    'C11-dB': "split_time on a time descriptor whose equal values are not adjacent: contiguous slice instead of the selection",
+    'C12-dA': "fit_regress called directly with method 'corr'/'corr_cov', pattern_idx None, NaN-free data: _parse_nan_vectors returns its inputs + in-place demeaning (two edits)",
+    'C12-dB': "dataset stored in contiguous equal blocks per descriptor value: get_measurements_tensor returns a view, noise estimation demeans it in place",
+    'C16-dA': "pickle, open handle holding two objects written one after the other: read_dict_pkl rewinds the handle before every load",
+    'C16-dB': "HDF5 str path loaded, overwritten, loaded again in one process: read_dict_hdf5 memoised per path",
+    'C18-dA': "n_sim >= 2, fresh signals: G made Fortran-ordered + ldl(overwrite_a=True) overwrite G during the first make_signal (two edits)",
+    'C18-dB': "noise_cov_channel given and noise != 1: noise folded into the Cholesky factor and reset to 1.0, descriptor records 1.0",
+    'C19-dA': "threshold >= 1, radius > 1, mask touching a face of the volume: np.roll-based neighbour prefilter wraps around",
+    'C19-dB': "n_jobs > 1 and a centre count that is not a multiple of the worker count: zip() over interleaved shares truncates",
 }
 
 
